@@ -26,6 +26,9 @@ package preprocessor
 // node the current iteration removed (after-hooks on the RemoveChild calls).
 //@ pred distinctItems(l []*models.Item) = forall(a, 0, len(l), forall(b, 0, len(l), a != b ==> l[a] != l[b]))
 //@ func preprocess
+//@   assert SetStatus(?)#1: [terminal-only-seed] @C01 !(arg0.parent != nil && (arg0.parent.status == models.ItemGotChildren || arg0.parent.status == models.ItemGotRedirected)) // C01: never dropped (the scope gate gives a final status only to a node that hangs below nothing - the seed; a filtered asset or redirect target is removed from its parent instead, and its siblings are still processed)
+//@   assert SetStatus(?)#2: [terminal-only-seed] @C01 !(arg0.parent != nil && (arg0.parent.status == models.ItemGotChildren || arg0.parent.status == models.ItemGotRedirected)) // C01: never dropped (the scope gate gives a final status only to a node that hangs below nothing - the seed; a filtered asset or redirect target is removed from its parent instead, and its siblings are still processed)
+//@   assert SetStatus(?)#3: [terminal-only-seed] @C01 !(arg0.parent != nil && (arg0.parent.status == models.ItemGotChildren || arg0.parent.status == models.ItemGotRedirected)) // C01: never dropped (the scope gate gives a final status only to a node that hangs below nothing - the seed; a filtered asset or redirect target is removed from its parent instead, and its siblings are still processed)
 //@   property C05
 //@   attr assume-pre NormalizeURL:non-nil
 //@   requires seed != nil && config.config != nil && models.ErrNotASeed != nil && ErrUnsupportedScheme != nil && ErrUnsupportedHost != nil
